@@ -475,7 +475,7 @@ GAINS = [None, 1.0, 2.0, 0.5, 3.0]
 SHAPES = [[2, 3], [4, 3], [3], [1, 3], [2, 2, 3]]
 DTYPES = ["float32", "int32", "float16"]
 DIFFS = ["same_instance", "identity", "weight", "static_alpha", "static_mode", "kwarg_gain",
-         "kwarg_presence", "shape", "dtype"]
+         "kwarg_presence", "shape", "dtype", "kwarg_gain_f32twin"]
 
 
 def gen_pair(rng, kind: Optional[str] = None, diff: Optional[str] = None) -> dict:
@@ -495,6 +495,10 @@ def gen_pair(rng, kind: Optional[str] = None, diff: Optional[str] = None) -> dic
     elif diff == "kwarg_gain":
         base["gain"] = rng.choice(GAINS[1:])
         other["gain"] = rng.choice([g for g in GAINS[1:] if g != base["gain"]])
+    elif diff == "kwarg_gain_f32twin":
+        # two Python floats that differ below float32 resolution (distinct float64 bytes, same float32)
+        base["gain"] = rng.choice([1.0, 2.0, 0.5])
+        other["gain"] = base["gain"] + 2.0 ** -40
     elif diff == "kwarg_presence":
         base["gain"], other["gain"] = None, 1.0
     elif diff == "shape":
@@ -505,7 +509,7 @@ def gen_pair(rng, kind: Optional[str] = None, diff: Optional[str] = None) -> dic
             "third": rng.chance(0.5), "swap": rng.chance(0.3), "chain": rng.chance(0.25) and diff not in ("shape", "dtype"),
             "sym": rng.chance(0.2) and diff != "shape", "det_param": rng.chance(0.25),
             # keyword passed as a traced scalar (runtime parameter of the function; works since 978be54)
-            "traced_gain": rng.chance(0.2)}
+            "traced_gain": rng.chance(0.2) and diff != "kwarg_gain_f32twin"}
 
 
 def gen_nested(rng) -> dict:
@@ -549,6 +553,9 @@ def generate(rng, n: int) -> list[dict]:
                 out.append(gen_kworder(rng, KWORDER_VARIANTS[rnd % len(KWORDER_VARIANTS)]))
             else:
                 out.append(gen_objkw(rng, OBJKW_VARIANTS[rnd % len(OBJKW_VARIANTS)]))
+        elif i in (0, 1, 3):
+            # always present: the float-resolution twin for a default class, a unique class and a function
+            out.append(gen_pair(rng, ["NnxD", "EqxU", "FnD"][min(i, 2)], "kwarg_gain_f32twin"))
         else:
             k, d = combos[(i - (i // 10) * 5) % len(combos)]
             out.append(gen_pair(rng, k, d))
@@ -620,7 +627,7 @@ def _build_pair(p: Prog) -> None:
         call_b = call_a
     else:
         A = make_block(kind, a["w"], a["alpha"], a["mode"])
-        if d["diff"] in ("same_instance", "kwarg_gain", "kwarg_presence", "shape", "dtype"):
+        if d["diff"] in ("same_instance", "kwarg_gain", "kwarg_gain_f32twin", "kwarg_presence", "shape", "dtype"):
             B = A
         else:
             B = make_block(kind, b["w"], b["alpha"], b["mode"])
